@@ -485,7 +485,7 @@ var c06ExtremeTexts = []string{
 	"$ion_symbol_table::{imports:$ion_symbol_table,symbols:[\"a\"]} $10 $ion_symbol_table::{imports:$ion_symbol_table,symbols:[\"b\"]} $11 $12",
 	"$ion_symbol_table::{symbols:[\"a\"], symbols:[\"b\"]}", "$ion_symbol_table::{imports:[{name:\"t\"}]}", "$ion_symbol_table::null.struct $10",
 	"$ion_shared_symbol_table::{name:null.string,version:null.int,symbols:null.list}", "'\\U0010FFFF' \"\\uD800\" \"\\uDC00\\uD800\"",
-	"{{ //// }} {{ ==== }} {{ A=== }} {{\"\\xFF\\0\"}}", "null.int::1", "a::b::c::", "(((((((((((((((((((((((((((((((((((((((( ", "[[[[[[[[[[[[[[[[[[[[[[[[[[[[[[[[[[[[",
+	"{{ //// }} {{ ==== }} {{ A=== }} {{\"\\xFF\\0\"}}", "\"\\uD83D", "\"\\uD83D\\", "'\\uD800", "'''\\uDBFF\\u", "{\"\\uD83D\\", "a::'\\uD83D", "null.int::1", "a::b::c::", "(((((((((((((((((((((((((((((((((((((((( ", "[[[[[[[[[[[[[[[[[[[[[[[[[[[[[[[[[[[[",
 	"0x" + strings.Repeat("f", 3000), "-0b" + strings.Repeat("1", 3000), strings.Repeat("9", 3000), strings.Repeat("9", 2000) + "." + strings.Repeat("9", 2000) + "d-2000",
 	strings.Repeat("[", 20000), strings.Repeat("(", 20000) + strings.Repeat(")", 20000), strings.Repeat("{a:", 15000), strings.Repeat("a::", 20000) + "1",
 	"'''" + strings.Repeat("a''' '''", 5000) + "'''", "/*" + strings.Repeat("*", 30000), strings.Repeat("/**/", 10000) + "1", "\"" + strings.Repeat("\\u00e9", 5000) + "\"",
